@@ -82,6 +82,9 @@ Definition shipped_rules : list rule := [
 {| r_group := "yodaStyleExpr"; r_patterns := ["$constval == $x"]; r_where := "m[""constval""].Node.Is(`BasicLit`) && !m[""x""].Node.Is(`BasicLit`)"; r_suggest := ""; r_report := "consider to change order in expression to $x == $constval" |};
 {| r_group := "yodaStyleExpr"; r_patterns := ["nil != $x"]; r_where := "!m[""x""].Node.Is(`BasicLit`)"; r_suggest := ""; r_report := "consider to change order in expression to $x != nil" |};
 {| r_group := "yodaStyleExpr"; r_patterns := ["nil == $x"]; r_where := "!m[""x""].Node.Is(`BasicLit`)"; r_suggest := ""; r_report := "consider to change order in expression to $x == nil" |};
+{| r_group := "equalFold"; r_patterns := ["strings.ToLower($x) == $y"; "strings.ToLower($x) == strings.ToLower($y)"; "$x == strings.ToLower($y)"; "strings.ToUpper($x) == $y"; "strings.ToUpper($x) == strings.ToUpper($y)"; "$x == strings.ToUpper($y)"]; r_where := "m[""x""].Pure && m[""y""].Pure && m[""x""].Text != m[""y""].Text"; r_suggest := "strings.EqualFold($x, $y)"; r_report := "consider replacing with strings.EqualFold($x, $y)" |};
+{| r_group := "equalFold"; r_patterns := ["strings.ToLower($x) != $y"; "strings.ToLower($x) != strings.ToLower($y)"; "$x != strings.ToLower($y)"; "strings.ToUpper($x) != $y"; "strings.ToUpper($x) != strings.ToUpper($y)"; "$x != strings.ToUpper($y)"]; r_where := "m[""x""].Pure && m[""y""].Pure && m[""x""].Text != m[""y""].Text"; r_suggest := "!strings.EqualFold($x, $y)"; r_report := "consider replacing with !strings.EqualFold($x, $y)" |};
+{| r_group := "equalFold"; r_patterns := ["bytes.Equal(bytes.ToLower($x), $y)"; "bytes.Equal(bytes.ToLower($x), bytes.ToLower($y))"; "bytes.Equal($x, bytes.ToLower($y))"; "bytes.Equal(bytes.ToUpper($x), $y)"; "bytes.Equal(bytes.ToUpper($x), bytes.ToUpper($y))"; "bytes.Equal($x, bytes.ToUpper($y))"]; r_where := "m[""x""].Pure && m[""y""].Pure && m[""x""].Text != m[""y""].Text"; r_suggest := "bytes.EqualFold($x, $y)"; r_report := "consider replacing with bytes.EqualFold($x, $y)" |};
 {| r_group := "stringConcatSimplify"; r_patterns := ["strings.Join([]string{$x, $y}, """")"]; r_where := ""; r_suggest := "$x + $y"; r_report := "" |};
 {| r_group := "stringConcatSimplify"; r_patterns := ["strings.Join([]string{$x, $y, $z}, """")"]; r_where := ""; r_suggest := "$x + $y + $z"; r_report := "" |};
 {| r_group := "stringConcatSimplify"; r_patterns := ["strings.Join([]string{$x, $y}, $glue)"]; r_where := "m[""glue""].Pure"; r_suggest := "$x + $glue + $y"; r_report := "" |};
@@ -131,6 +134,26 @@ Definition rw_unix_milli (t : expr) := {| rw_name := "timeExprSimplify"; rw_lhs 
 Definition rw_unix_micro (t : expr) := {| rw_name := "timeExprSimplify"; rw_lhs := EBinary OMul (call1 PUnixNano t) lit1000; rw_rhs := call1 PUnixMicro t |}.
 (* offBy1's suggestion (not an equivalence claim: "maybe you wanted"): $x[len($x)] => $x[len($x)-1] *)
 Definition rw_off_by1 (x : expr) := {| rw_name := "offBy1"; rw_lhs := EIndex x (call1 PLen x); rw_rhs := EIndex x (EBinary OSub (call1 PLen x) lit1) |}.
+
+(* ---------- round 5: more rules whose semantics the fragment expresses ---------- *)
+Definition call3 (p : prim) (x y z : expr) : expr := ECall (FPrim p) [x; y; z].
+(* wrapperFunc: bytes.Index($b1, $b2) >= 0 | != -1  =>  bytes.Contains($b1, $b2) *)
+Definition rw_bytes_index_ge (b1 b2 : expr) := {| rw_name := "wrapperFunc"; rw_lhs := EBinary OGe (call2 PBytesIndex b1 b2) lit0; rw_rhs := call2 PBytesContains b1 b2 |}.
+Definition rw_bytes_index_ne (b1 b2 : expr) := {| rw_name := "wrapperFunc"; rw_lhs := EBinary ONe (call2 PBytesIndex b1 b2) litm1; rw_rhs := call2 PBytesContains b1 b2 |}.
+(* wrapperFunc: strings.IndexAny($s1, $s2) >= 0 | != -1  =>  strings.ContainsAny($s1, $s2) *)
+Definition rw_index_any_ge (s1 s2 : expr) := {| rw_name := "wrapperFunc"; rw_lhs := EBinary OGe (call2 PStrIndexAny s1 s2) lit0; rw_rhs := call2 PStrContainsAny s1 s2 |}.
+Definition rw_index_any_ne (s1 s2 : expr) := {| rw_name := "wrapperFunc"; rw_lhs := EBinary ONe (call2 PStrIndexAny s1 s2) litm1; rw_rhs := call2 PStrContainsAny s1 s2 |}.
+(* wrapperFunc (Report only): strings.Replace($_, $_, $_, -1) => strings.ReplaceAll; bytes.Replace likewise *)
+Definition rw_replace_all (s o n : expr) := {| rw_name := "wrapperFunc"; rw_lhs := ECall (FPrim PStrReplace) [s; o; n; litm1]; rw_rhs := call3 PStrReplaceAll s o n |}.
+Definition rw_bytes_replace_all (s o n : expr) := {| rw_name := "wrapperFunc"; rw_lhs := ECall (FPrim PBytesReplace) [s; o; n; litm1]; rw_rhs := call3 PBytesReplaceAll s o n |}.
+(* stringConcatSimplify: strings.Join([]string{$x, $y}, "") => $x + $y;  three elements => $x + $y + $z *)
+Definition rw_join2_empty (x y : expr) := {| rw_name := "stringConcatSimplify"; rw_lhs := ECall (FPrim PJoin2) [x; y; empty_str]; rw_rhs := EBinary OAdd x y |}.
+Definition rw_join3_empty (x y z : expr) := {| rw_name := "stringConcatSimplify"; rw_lhs := ECall (FPrim PJoin3) [x; y; z; empty_str]; rw_rhs := EBinary OAdd (EBinary OAdd x y) z |}.
+(* equalFold: strings.ToLower($x) == strings.ToLower($y) => strings.EqualFold($x, $y); and the one-sided pattern *)
+Definition rw_equal_fold_both (x y : expr) := {| rw_name := "equalFold"; rw_lhs := EBinary OEq (call1 PStrToLower x) (call1 PStrToLower y); rw_rhs := call2 PStrEqualFold x y |}.
+Definition rw_equal_fold_left (x y : expr) := {| rw_name := "equalFold"; rw_lhs := EBinary OEq (call1 PStrToLower x) y; rw_rhs := call2 PStrEqualFold x y |}.
+(* the filter of the equalFold rules: both operands Pure, different source text *)
+Definition equal_fold_filter (x y : expr) : bool := rg_pure x && rg_pure y && negb (expr_eqb x y).
 
 (* yodaStyleExpr: $constval op $x => $x op $constval   (op is == or !=; filter: $constval is a BasicLit) *)
 Definition rw_yoda (o : binop) (c x : expr) := {| rw_name := "yodaStyleExpr"; rw_lhs := EBinary o c x; rw_rhs := EBinary o x c |}.
